@@ -323,7 +323,7 @@ PROPS = {
 }
 
 TIERS = {
-    "quick": dict(oracle=dict(default=1500, small=1500, mid=60, memo=6, big=2), trace=dict(default=400, small=600, memo=3),
+    "quick": dict(oracle=dict(default=1500, small=1500, mid=60, memo=6, big=6), trace=dict(default=400, small=600, memo=3),
                   probe_depth=2, probe_deep=0, gen=dict(default=1200, small=800), gen_exhaustive=1, mut=4000, src=1500,
                   src_exhaustive2=False, hist=6000, hist_len=4),
     "thorough": dict(oracle=dict(default=30000, small=30000, mid=1500, memo=120, big=24, large=2),
@@ -609,6 +609,15 @@ INTRO = {"Obj": 1, "AddItems": 4, "NewObjEx": 4, "NewObj": 2, "StackGlobal": 4, 
          "Ext1": 2, "Ext2": 2, "Ext4": 2}
 
 
+# a simulated stack (bottom first) in which the opcode's guard holds — used when a disagreement about
+# the opcode's *effect* was observed in a state where the generator would not emit it
+CANON = {"NewObjEx": "ctd", "NewObj": "ct", "Reduce": "ct", "Build": "ot", "StackGlobal": "ss", "Append": "li",
+         "SetItem": "dsi", "Appends": "lMi", "SetItems": "dMsi", "AddItems": "eMi", "Obj": "Mci", "Inst": "Mi",
+         "Dict": "Msi", "List": "Mii", "Tuple": "Mii", "FrozenSet": "Mii", "PopMark": "iMi", "Pop": "ii", "Dup": "ii",
+         "Tuple1": "ii", "Tuple2": "iii", "Tuple3": "iiii", "BinPersID": "ii", "Put": "i", "BinPut": "i",
+         "LongBinPut": "i", "Memoize": "i", "ReadOnlyBuffer": "iy"}
+
+
 def targeted_search(cx, mismatches, budget=40):
     """returns number of candidate inputs tried; appends to cx.failing when the property fails on one"""
     tried = 0
@@ -635,55 +644,61 @@ def targeted_search(cx, mismatches, budget=40):
             if (stack, op, kind) in seen:
                 continue
             seen.add((stack, op, kind))
-            for p in range(max(INTRO.get(op, 0), 0), 6):
-                plan = []
-                ok = True
-                for k in stack:
-                    r = recipe(k, p)
-                    if r is None:
-                        ok = False
-                        break
-                    plan += r
-                if not ok:
-                    continue
-                last = op
-                if kind == "guard":
-                    # index of the opcode in the IMPLEMENTATION's valid list for this protocol
-                    vm = [c for c in cats if c.startswith("valid_opcodes:P=%d:" % p)]
-                    if not vm or op not in ob:
-                        continue
-                    impl_hex = vm[0].split("impl=")[-1]
-                    lst = [impl_hex[i:i + 2] for i in range(0, len(impl_hex), 2)]
-                    if ob[op] not in lst:
-                        continue
-                    last = "%s@%d" % (op, lst.index(ob[op]))
-                plan.append(last)
-                cfg = "P=%d unsafe=%s ext=%s buf=%s mask=0 rate=0000000000000000" % (p, h.get("unsafe", "0"), h.get("ext", "0"), h.get("buf", "0"))
-                # a depth drift is often re-absorbed by the collapse phase's TUPLE; draining the stack
-                # with fixed-arity POPs (which treat a MARK as an ordinary element) exposes it
-                for drain in ([], ["Pop"], ["Pop", "Pop"], ["Pop", "Pop", "Pop"]):
-                    full = plan + drain
-                    out = [l for l in drive("steer %s plan=%s\n" % (cfg, ",".join(full))) if l.startswith("steer ")]
-                    if not out or not out[0].startswith("steer ok"):
-                        continue
-                    b = toks(out[0]).get("bytes", "-")
-                    case = "id=0 %s min=%d max=%d warm=0 mode=arb:%s" % (cfg, len(full), len(full), b)
-                    tried += 1
-                    cx.cov["evaluations"] += 1
-                    try:
-                        if key and key != "gen":
-                            _, v = rerun_case(case)
-                            if v.get(key, "").startswith("FAIL"):
-                                cx.failing.append(("oracle", case, v[key]))
-                                return tried
-                        if cx.prop == "C17":
-                            _, tout = rerun_any("S2", case)
-                            if "C17-direct" in tout:
-                                cx.failing.append(("S2", case, tout.split(" FAIL ", 1)[-1][:400]))
-                                return tried
-                    except Exception:
-                        pass
-                break
+            if kind == "effect" and op in CANON and ("canon", op) not in seen:
+                seen.add(("canon", op))
+                stacks = [CANON[op], stack]
+            else:
+                stacks = [stack]
+            for stack in stacks:
+              for p in range(max(INTRO.get(op, 0), 0), 6):
+                  plan = []
+                  ok = True
+                  for k in stack:
+                      r = recipe(k, p)
+                      if r is None:
+                          ok = False
+                          break
+                      plan += r
+                  if not ok:
+                      continue
+                  last = op
+                  if kind == "guard":
+                      # index of the opcode in the IMPLEMENTATION's valid list for this protocol
+                      vm = [c for c in cats if c.startswith("valid_opcodes:P=%d:" % p)]
+                      if not vm or op not in ob:
+                          continue
+                      impl_hex = vm[0].split("impl=")[-1]
+                      lst = [impl_hex[i:i + 2] for i in range(0, len(impl_hex), 2)]
+                      if ob[op] not in lst:
+                          continue
+                      last = "%s@%d" % (op, lst.index(ob[op]))
+                  plan.append(last)
+                  cfg = "P=%d unsafe=%s ext=%s buf=%s mask=0 rate=0000000000000000" % (p, h.get("unsafe", "0"), h.get("ext", "0"), h.get("buf", "0"))
+                  # a depth drift is often re-absorbed by the collapse phase's TUPLE; draining the stack
+                  # with fixed-arity POPs (which treat a MARK as an ordinary element) exposes it
+                  for drain in ([], ["Pop"], ["Pop", "Pop"], ["Pop", "Pop", "Pop"]):
+                      full = plan + drain
+                      out = [l for l in drive("steer %s plan=%s\n" % (cfg, ",".join(full))) if l.startswith("steer ")]
+                      if not out or not out[0].startswith("steer ok"):
+                          continue
+                      b = toks(out[0]).get("bytes", "-")
+                      case = "id=0 %s min=%d max=%d warm=0 mode=arb:%s" % (cfg, len(full), len(full), b)
+                      tried += 1
+                      cx.cov["evaluations"] += 1
+                      try:
+                          if key and key != "gen":
+                              _, v = rerun_case(case)
+                              if v.get(key, "").startswith("FAIL"):
+                                  cx.failing.append(("oracle", case, v[key]))
+                                  return tried
+                          if cx.prop == "C17":
+                              _, tout = rerun_any("S2", case)
+                              if "C17-direct" in tout:
+                                  cx.failing.append(("S2", case, tout.split(" FAIL ", 1)[-1][:400]))
+                                  return tried
+                      except Exception:
+                          pass
+                  break
     return tried
 
 
@@ -772,9 +787,16 @@ def check_property(prop, tier, seed):
                 notes.append("corpus entry could not be re-run: %s (%s)" % (cl[:80], e))
 
     # ---- oracle on implementation outputs, then the correspondence streams
-    stream_oracle(cx)
+    try:
+        stream_oracle(cx)
+    except Exception as e:
+        cx.corr.append(dict(stream="oracle", count=1, first="the oracle stream could not run: %s" % str(e)[:600]))
     for st in P["streams"]:
-        STREAMS[st](cx)
+        try:
+            STREAMS[st](cx)
+        except Exception as e:
+            # a crashing harness / driver is a broken tie, never a silent pass and never a crash of the check
+            cx.corr.append(dict(stream=st, count=1, first="stream %s could not run: %s" % (st, str(e)[:600])))
     cov["input_distribution"] = cx.hist
     cov["impl_vs_oracle_failures"] = len(cx.failing)
     cov["model_vs_impl_disagreements"] = sum(c["count"] for c in cx.corr)
